@@ -155,7 +155,9 @@ var (
 	wireSeq   int
 )
 
-const wireMaxLen = 395 // DefaultMaxLineLength - DefaultMaxPrefixLength
+// wireMax is MaxEventLength() of the variant's client at the time a case is generated
+// (395 with the default limits); the case carries it, and a run asserts it still holds.
+func wireMax(variant string) int { return wireSession(variant).s.C.MaxEventLength() }
 
 const wireSyncTimeout = 60 * time.Second
 
@@ -186,11 +188,12 @@ func wireSyncSeenBefore() bool {
 }
 
 // wireSession returns the (lazily started) client of a variant: "0" no capability
-// negotiated, "1" message-tags acknowledged. A dead session is replaced.
+// negotiated, "1" message-tags acknowledged, "2" like "0" after an ISUPPORT line that
+// raises the line limit (LINELEN=1024, NICKLEN=9). A dead session is replaced.
 func wireSession(variant string) *wireSess {
 	wireMu.Lock()
 	defer wireMu.Unlock()
-	if variant != "1" {
+	if variant != "1" && variant != "2" {
 		variant = "0"
 	}
 	if x := wireSesss[variant]; x != nil {
@@ -205,6 +208,9 @@ func wireSession(variant string) *wireSess {
 	s := drive.Start(cfg)
 	if variant == "1" {
 		s.Feed(":irc.test CAP me ACK :message-tags")
+	}
+	if variant == "2" {
+		s.Feed(":irc.test 005 me LINELEN=1024 NICKLEN=9 :are supported by this server")
 	}
 	wireSeq++
 	x := &wireSess{s: s, tok: fmt.Sprintf("%x.%d.", time.Now().UnixNano(), wireSeq)}
@@ -352,6 +358,9 @@ func longText(r *rand.Rand, n int) string {
 func textArg(r *rand.Rand) string {
 	switch r.Intn(8) {
 	case 0:
+		if r.Intn(3) == 0 {
+			return longText(r, 900+r.Intn(600)) // beyond the raised limit of variant "2" too
+		}
 		return longText(r, 600)
 	case 1:
 		return longText(r, 330)
@@ -624,7 +633,8 @@ func helperTextEvent(h string, a []string) *girc.Event {
 // mkHelperCase: variant, maxlen, helper, nargs, args..., then for sendraw one pieces
 // group per raw line, otherwise one pieces group.
 func mkHelperCase(variant, h string, a []string) Case {
-	c := Case{variant, strconv.Itoa(wireMaxLen), h, strconv.Itoa(len(a))}
+	max := wireMax(variant)
+	c := Case{variant, strconv.Itoa(max), h, strconv.Itoa(len(a))}
 	c = append(c, a...)
 	if h == "sendraw" {
 		for _, raw := range a {
@@ -632,12 +642,12 @@ func mkHelperCase(variant, h string, a []string) Case {
 			if ev == nil {
 				break
 			}
-			c = append(c, encPieces(splitPieces(ev, wireMaxLen))...)
+			c = append(c, encPieces(splitPieces(ev, max))...)
 		}
 		return c
 	}
 	if ev := helperTextEvent(h, a); ev != nil {
-		c = append(c, encPieces(splitPieces(ev, wireMaxLen))...)
+		c = append(c, encPieces(splitPieces(ev, max))...)
 	} else {
 		c = append(c, "0")
 	}
@@ -715,7 +725,11 @@ func runHelperCase(c Case) Result {
 		return false
 	}()
 	pieces, synced := x.flush(mark)
-	res := Result{Obs: fmtPieces(pieces), Sig: h + argFlags(a)}
+	sig := h + argFlags(a)
+	if variant == "1" || variant == "2" {
+		sig += "/v" + variant
+	}
+	res := Result{Obs: fmtPieces(pieces), Sig: sig}
 	if panicked {
 		res.Obs = "PANIC"
 		res.Sig = h + "/panic"
@@ -855,11 +869,16 @@ func fixedHelperCases() []Case {
 		mkHelperCase("0", "sendraw", []string{"@a=b;c :n!u@h PRIVMSG #c :" + strings.Repeat("tagged ", 80)}),
 	)
 	// join/list batching boundaries: total length around the limit
-	for _, h := range []string{"join", "list"} {
-		for n := 384; n <= 392; n++ {
-			out = append(out, mkHelperCase("0", h, []string{"#" + strings.Repeat("a", n-8), "#bbbbbb", "#c"}))
+	for _, v := range []string{"0", "2"} {
+		m := wireMax(v)
+		for _, h := range []string{"join", "list"} {
+			for n := m - 11; n <= m-3; n++ {
+				out = append(out, mkHelperCase(v, h, []string{"#" + strings.Repeat("a", n-8), "#bbbbbb", "#c"}))
+			}
+			out = append(out, mkHelperCase(v, h, []string{"#" + strings.Repeat("a", m+100), "#b", "", "#c"}))
 		}
-		out = append(out, mkHelperCase("0", h, []string{"#" + strings.Repeat("a", 500), "#b", "", "#c"}))
+		out = append(out, mkHelperCase(v, "message", []string{"#c", strings.Repeat("w ", m)}),
+			mkHelperCase(v, "action", []string{"#c", strings.Repeat("does ", m/3)}))
 	}
 	return out
 }
@@ -952,9 +971,10 @@ func genWireEvent(r *rand.Rand) *girc.Event {
 func Pick2(r *rand.Rand, xs ...int) int { return xs[r.Intn(len(xs))] }
 
 func mkEventCase(variant string, e *girc.Event) Case {
-	c := Case{variant, strconv.Itoa(wireMaxLen)}
+	max := wireMax(variant)
+	c := Case{variant, strconv.Itoa(max)}
 	c = append(c, encEvent(e)...)
-	sp := splitPieces(e, wireMaxLen)
+	sp := splitPieces(e, max)
 	return append(c, encPieces(sp)...)
 }
 
@@ -1112,9 +1132,12 @@ func fixedEventCases() []Case {
 		out = append(out, mkEventCase("0", e), mkEventCase("1", e))
 	}
 	// texts whose event length is exactly around the split limit
-	for n := 380; n <= 390; n++ {
-		out = append(out, mkEventCase("0", &girc.Event{Command: "PRIVMSG", Params: []string{"#c", strings.Repeat("y", n)}}))
-		out = append(out, mkEventCase("0", &girc.Event{Command: "PRIVMSG", Params: []string{"#c", strings.Repeat("y", n-200) + " " + strings.Repeat("y", 199)}}))
+	for _, v := range []string{"0", "2"} {
+		m := wireMax(v)
+		for n := m - 15; n <= m-5; n++ {
+			out = append(out, mkEventCase(v, &girc.Event{Command: "PRIVMSG", Params: []string{"#c", strings.Repeat("y", n)}}))
+			out = append(out, mkEventCase(v, &girc.Event{Command: "PRIVMSG", Params: []string{"#c", strings.Repeat("y", n-200) + " " + strings.Repeat("y", 199)}}))
+		}
 	}
 	return out
 }
@@ -1158,7 +1181,7 @@ func init() {
 		Fixed: fixedHelperCases,
 		Gen: func(r *rand.Rand) Case {
 			h := helperNames[r.Intn(len(helperNames))]
-			return mkHelperCase(Pick(r, "0", "0", "1"), h, helpers[h].gen(r))
+			return mkHelperCase(Pick(r, "0", "0", "1", "2"), h, helpers[h].gen(r))
 		},
 		Run: runHelperCase,
 	})
@@ -1167,7 +1190,7 @@ func init() {
 		Prop:  []string{"C03"},
 		Fixed: fixedEventCases,
 		Gen: func(r *rand.Rand) Case {
-			return mkEventCase(Pick(r, "0", "1"), genWireEvent(r))
+			return mkEventCase(Pick(r, "0", "1", "2"), genWireEvent(r))
 		},
 		Run: runEventCase,
 	})
